@@ -282,8 +282,8 @@ class LayoutGen:
             return ("val",)
         if c < 0.55:
             bits = 256
-            if self.narrow and r.random() < 0.3:
-                bits = r.choice([8, 16, 24, 160, 264, 512])
+            if self.narrow and r.random() < 0.35:
+                bits = r.choice([0, 0, 8, 16, 24, 160, 264, 512])   # 0 = bytes/string key: width chosen per access
             return ("map", bits, self.gen_type(depth - 1))
         if c < 0.8:
             return ("arr", self.gen_type(depth - 1))
@@ -316,7 +316,7 @@ class LayoutGen:
         if bits != 256:
             if c < 0.5 and self.nvars:
                 return ("v", r.randrange(self.nvars))
-            return ("c", r.choice([0, 1, 2, 0xAB, 0xAB00, 0xCD, 0x00CD, (1 << bits) - 1, r.getrandbits(bits)]) % (1 << bits))
+            return ("c", r.choice([0, 0, 1, 2, 0xAB, 0xAB00, 0xCD, 0x00CD, (1 << bits) - 1, r.getrandbits(bits)]) % (1 << bits))
         if c < 0.45 and self.nvars:
             return ("V", r.randrange(self.nvars))
         if c < 0.85:
@@ -370,8 +370,12 @@ class LayoutGen:
                 continue
             flush()
             if t[0] == "map":
-                bits = t[1]
+                bits = t[1] or r.choice([8, 16])
                 k = self.key_term(bits)
+                if bits != 256 and k[0] == "c" and closed(cur):
+                    tags.add("narrow-constant-key")
+                if bits == 256 and k[0] == "S256":
+                    tags.add("hash-valued-key")
                 cur = ("S512", k, cur) if bits == 256 else ("SN", bits, k, cur)
                 tags.add("map" if bits == 256 else "narrowmap")
                 t = t[2]
